@@ -4,6 +4,7 @@ import Amgcl.Proofs.DefinedSA
 import Amgcl.Proofs.SkylineBuild
 import Amgcl.Proofs.SkylineFactor
 import Amgcl.Proofs.SkylineSolve
+import Amgcl.Proofs.KernelsSort
 import Mathlib.Algebra.Order.Field.Rat
 /-!
 # C10 (continued) — definedness of the arrays the setup code allocates without initialising them, for all inputs
@@ -22,6 +23,7 @@ model that the correspondence check validates against the real code — hence th
   place, loading the cells) → `set_nonzeros(ptr[n])` → fill from the loaded `ptr[i]`, and the copying one.
   Instances: `tentative_prolongation_defined` (aggregates with id < 0 give empty rows), `crs_copy_defined`,
   `crs_clone_defined`.
+* `sort_rows_defined` — in place, no allocation: same `ptr`, every row segment permuted within itself.
 * `fill_vec_defined` — the loop `for i < n: a[i] = f i` on a fresh allocation (the `numa_vector` constructors);
   `spai0_defined` — `M = numa_vector(n, false)`, written for every `i`.
 * `sa_fill_marker_indep`, `sa_fill_rows_history_indep`, `sa_count_marker_indep`, `sa_marker_uninit_counterexample` —
@@ -31,7 +33,7 @@ model that the correspondence check validates against the real code — hence th
 * `skyline_defined` — `skyline_lu`: constructor + `operator()` give the same output and the same new scratch for any
   two prior contents of the `mutable` scratch vector `y`, for every matrix and ordering array.
 -/
-namespace Amgcl.C10b
+namespace Amgcl.C10c
 open Amgcl Amgcl.Defined Amgcl.Relax
 
 /-! ## ILU(0) -/
@@ -159,6 +161,36 @@ theorem crs_copy_defined (A : CRS K) (jp jp' : Array Nat) (jc jc' : Nat → Arra
   exact ⟨a, e, f⟩
 
 end kernels
+
+/-- **`backend::sort_rows`** works in place and allocates nothing: the pointer array is unchanged and every row segment
+holds a permutation of the cells it held before — a matrix all of whose cells were written stays so, and no cell
+outside the row's own segment is read or written -/
+theorem sort_rows_defined {K : Type} (A : CRS K) :
+    ptrList (sortRows A).rows = ptrList A.rows ∧ (∀ i, ((sortRows A).row i).Perm (A.row i)) ∧
+      (flatRows (sortRows A).rows).Perm (flatRows A.rows) := by
+  have hperm : ∀ i, ((sortRows A).row i).Perm (A.row i) := by
+    intro i; rw [K2.sortRows_row]; exact Amgcl.sortRow_perm _
+  have hrows : (sortRows A).rows.toList = A.rows.toList.map sortRow := by simp [sortRows]
+  refine ⟨?_, hperm, ?_⟩
+  · unfold ptrList flatUpTo
+    have hsz : (sortRows A).rows.size = A.rows.size := by simp [sortRows]
+    rw [hsz]
+    apply List.map_congr_left
+    intro i _
+    rw [hrows, ← List.map_take, List.length_flatten, List.length_flatten, List.map_map]
+    congr 1
+    apply List.map_congr_left
+    intro r _
+    exact (Amgcl.sortRow_perm r).length_eq
+  · unfold flatRows
+    rw [hrows]
+    generalize A.rows.toList = L
+    induction L with
+    | nil => simp
+    | cons r t ih => simp only [List.map_cons, List.flatten_cons]; exact (Amgcl.sortRow_perm r).append ih
+
+example : ptrList (sortRows (⟨3, #[[(2, 'a'), (0, 'b')], [], [(1, 'c')]]⟩ : CRS Char)).rows = [0, 2, 2, 3] := by
+  rw [(sort_rows_defined _).1]; decide
 
 /-- non-vacuity: aggregates `[0, -1, 1, 0]` (row 1 removed) -/
 example : (tentativeCells (K := Rat) 4 2 #[0, -1, 1, 0] #[9, 9, 9, 9, 9] (fun k => Array.replicate k 5)
@@ -302,4 +334,4 @@ example : Skyline.constructAndSolve (fun v : Rat => decide (v = 0)) (fun v => 1 
       ⟨2, #[[(1, 1), (0, 3)], [(0, 1), (1, 2)]]⟩ #[0, 1] (some #[0, 0]) #[1, 2] #[9, 9] :=
   skyline_defined _ _ _ _ _ _ _ _ rfl rfl
 
-end Amgcl.C10b
+end Amgcl.C10c
